@@ -40,7 +40,7 @@ SPEC = {
              "one were handed out. The fault counts as reached when the provider's Run returned an error that is not its context's "
              "cancellation; it is carried when the run's error shows that error's text; everything else (all instances stop, guns closed, "
              "Wait returns, nil only when ammo or schedule were used up) is judged as for the doubles. "
-             "CROWDED pools: one case in thirty has a pool of 100, 150, 200, 300, 400 or 600 instances (startup `once N`) with a minute "
+             "CROWDED pools: one case in twenty has a pool of 100, 150, 200, 300, 400 or 600 instances (startup `once N`) with a minute "
              "of work (2000 shots a second in total, shared or per instance), so that all of them are there when the caller's cancel "
              "(1-300 ms into the run) or the failure of a pool (its own fault plan, or a sibling's) ends the run, and all of them end in "
              "one burst: parked in the schedule wait or - in half of them, after a first instant shot - in a request that takes 30 s "
@@ -65,17 +65,31 @@ SPEC = {
                "TestOutcome/pool_failed_no_caller_cancel_sibling_was_shooting": 0.045,
                "TestOutcome/pool_failed_no_caller_cancel_sibling_is_first_pool": 0.03,
                "TestOutcome/slow_gun_close": 0.12, "TestOutcome/slow_gun_close_instance_0": 0.09, "TestOutcome/slow_gun_close_instance_gt_0": 0.07,
-               "TestOutcome/slow_gun_close_result_nil": 0.03, "TestOutcome/slow_gun_close_result_ctx_err": 0.025,
-               "TestOutcome/slow_gun_close_result_fault": 0.05},
+               "TestOutcome/slow_gun_close_result_nil": 0.03, "TestOutcome/slow_gun_close_result_ctx_err": 0.022,
+               "TestOutcome/slow_gun_close_result_fault": 0.05,
+               "TestOutcome/real_provider": 0.07, "TestOutcome/real_provider_raw": 10, "TestOutcome/real_provider_jsonline": 12,
+               "TestOutcome/real_provider_failed_before_first_ammo_instances_in_acquire": 0.015,
+               "TestOutcome/real_provider_failed_in_preload_instances_in_acquire": 0.012,
+               "TestOutcome/real_provider_failed_in_preload_malformed_instances_in_acquire": 0.009,
+               "TestOutcome/real_provider_failed_file_without_entries": 6, "TestOutcome/real_provider_failed_mid_run": 1,
+               "TestOutcome/real_provider_healthy_result_nil": 8,
+               "TestOutcome/crowd_gt_64_instances_started": 10, "TestOutcome/crowd_gt_250_instances_started": 3,
+               "TestOutcome/crowd_ended_by_cancel": 5, "TestOutcome/crowd_ended_by_failure": 3,
+               "TestOutcome/crowd_debug_log": 4, "TestOutcome/crowd_nop_log": 4,
+               "TestOutcome/crowd_requests_end_with_context": 3, "TestOutcome/crowd_in_schedule_wait": 4,
+               "TestOutcome/log_debug": 0.02},
     "manifest": {
-        "technique": "fault-injection property testing (rapid) of the real engine with recording doubles; outcome oracle from which faults were actually reached",
+        "technique": "fault-injection property testing (rapid) of the real engine with recording doubles and, for the ammo provider, also pandora's real http provider on malformed / entry-less files; outcome oracle from which faults were actually reached",
         "text": ("Generated fault/cancel plans are run against the real engine; the doubles record which injected fault actually returned "
                  "its error. Result must be nil iff nothing failed and no in-progress cancel cut work short, must carry a reached fault "
                  "or the context error otherwise; afterwards Engine.Wait returns, provider/aggregator Run returned, InstanceStart = "
                  "InstanceFinish, bound closable guns are closed exactly once - already at the instant Run returns nil / Wait returns, with "
                  "Close calls that take 1-50 ms - and no engine goroutine survives; the harness leaves its own context alone until then, so "
                  "after one pool's failure the engine itself has to stop pools that would otherwise shoot for a minute. Orderings of the engine's "
-                 "result channels are those the Go scheduler produced over 3 runs per case (plus -race in thorough)."),
+                 "result channels are those the Go scheduler produced over 3 runs per case (plus -race in thorough). One pool in seven reads "
+                 "its ammo with the real http provider (failing while it preloads a malformed or entry-less file, with the instances "
+                 "already waiting in Acquire, or mid-run), one case in twenty has a pool of 100-600 instances that all end in one burst "
+                 "when the run is cancelled or a pool fails, and some runs log at debug level to a slow output."),
         "note": ("Hang verdicts use a 20 s deadline (normal runs take < 50 ms). Guns whose Bind failed and the warm-up probe gun are not "
                  "required to be closed. A nil result - after an in-progress cancel or not - is accepted only if the history shows all work of every pool was "
                  "done. Promptness of the cancellation error is a 1 s bound (normal: well under a millisecond; the cli gives up on a "
